@@ -110,6 +110,22 @@ CHECKS = {
              "of 2 months. Outside the domain (named in the spec): non-ratio scalar x ratio series (the code refuses with "
              "'consider implementing this feature'), two ratios with different suffixes. in_units is covered by C10.",
     ),
+    "C13": dict(
+        technique="TLA+ spec Options.tla: TLC-enumerated setter sequences, dispatch cases and override keys replayed on the real "
+                  "Scenarios / ScenarioRunner / herd builder",
+        text="Options.tla models the exactly-once flags, the setter -> family / scale tables, the dispatcher's value table, the "
+             "constants each family owns, the documented values and the override targets. TLC checks ExactlyOnce and table "
+             "consistency on all sequences of up to two of the 58 setters under both scales (5.8k states) and emits every "
+             "transition; each is replayed on a fresh real Scenarios object (refusal <=> AssertionError, nothing written on "
+             "refusal, writes only inside the family's constants, exactly one flag set). Every family x {each supported value, an "
+             "unknown value, missing} is dispatched through set_depending_on_option under both scales (accepted <=> supported "
+             "and scale-compatible, documented values hold, other families' constants unchanged, caller's dictionary unchanged, "
+             "check_all_set passes). All 26 override keys are applied (exactly the target constants change; head-count "
+             "overrides are followed into the stock table seen by create_animal_objects).",
+        design_ref="5 (C13), Options.tla",
+        note="The Owns / Doc tables are a transcription of README.md and the setters' docstrings; a disagreement may be a "
+             "transcription error and is examined before it is reported. 'required' fat / protein call sys.exit by design.",
+    ),
     "C16": dict(
         technique="TLA+ spec Rounds.tla: trace acceptance (LegalOrder, SolverOptimal, ValidatorsPass, Completed, "
                   "PercentFedFiniteNonNeg) of every run of the preset grid",
